@@ -23,7 +23,7 @@ ASSUMPTIONS = ['SHA-384 collision resistance (a writer is model-accepted iff its
                'disk-write failures inside _write_blob are out of scope (not a peer behaviour)']
 REQUIRED_HITS = ['L1.second_download_checked', 'S1.steps_checked', 'S1.bad_only_case', 'L1.checked', 'L1.multi_writer', 'S2.callback_seen',
                  'schedule.same_iteration_double_win', 'schedule.writer_reopened_by_same_peer_in_same_iteration', 'kind.flip', 'kind.trunc_closed', 'kind.overlong_straddle',
-                 'kind.unrelated', 'kind.correct_then_closed', 'decl.length_only_claimed_by_peer', 'L1.honest_retry_after_wrong_claims_checked', 'kind.overlong_later', 'decl.too_big', 'decl.zero', 'decl.unknown']
+                 'kind.unrelated', 'kind.correct_then_closed', 'decl.length_only_claimed_by_peer', 'decl.second_announcement_while_a_copy_is_in_flight', 'L1.honest_retry_after_wrong_claims_checked', 'kind.overlong_later', 'decl.too_big', 'decl.zero', 'decl.unknown']
 MAX = 2 * 1024 * 1024
 KINDS = ['correct', 'flip', 'trunc_silent', 'trunc_closed', 'overlong_later', 'overlong_straddle', 'unrelated',
          'late_correct', 'correct_then_closed']
@@ -50,7 +50,8 @@ def gen_cases(rng, tier, shard, nshards):
         L = rng.choice(big) if i % 12 == 11 else (rng.choice(small) if rng.random() < 0.7 else rng.randrange(1, 70000))
         yield {'fam': 'rand', 'seed': rng.getrandbits(48), 'L': L}
     # declared-length edge classes, each shard a few
-    for decl in ['too_big', 'zero', 'negative', 'unknown', 'off_by_minus', 'off_by_plus', 'set_late', 'set_twice', 'same_wrong_twice']:
+    for decl in ['too_big', 'zero', 'negative', 'unknown', 'off_by_minus', 'off_by_plus', 'set_late', 'set_twice', 'same_wrong_twice',
+                 'second_announcement_in_flight']:
         for _ in range(2 if tier == 'quick' else 20):
             yield {'fam': 'rand', 'seed': rng.getrandbits(48), 'L': rng.choice([1, 17, 1000, 5000]), 'decl': decl}
     for _ in range(6 if tier == 'quick' else 60):
@@ -250,6 +251,8 @@ async def _run(rec, r, content, kinds, decl, blobkind, steps, case):
     # ---- declared length
     ctor_len = None
     sets = []
+    true_first = False          # the first announcement is the true length: a complete correct copy is n bytes, whatever is announced later
+    in_flight_second = None
     if decl == 'ctor':
         ctor_len = n
     elif decl == 'set_length':
@@ -276,6 +279,12 @@ async def _run(rec, r, content, kinds, decl, blobkind, steps, case):
         sets = [wrong, wrong]          # two peers announce the same wrong length
     elif decl == 'set_twice':
         sets = [n, r.choice([n + 1, max(n - 1, 0), 0, MAX + 5])]    # a second, different announcement must not change it
+        true_first = True
+    elif decl == 'second_announcement_in_flight':
+        # the honest peer's header comes first; another peer's header with a different length arrives while the honest copy is on its way
+        sets = [n]
+        in_flight_second = r.choice([n + 1, n + 32, max(n - 1, 1) if n > 1 else n + 3])
+        true_first = True
     rec.hit('decl.' + decl)
     bdir = _TMP.get('dir') or tempfile.gettempdir()
     path = os.path.join(bdir, blob_hash)
@@ -391,7 +400,7 @@ async def _run(rec, r, content, kinds, decl, blobkind, steps, case):
                 exc_types.add('OSError@reopen')
         data = p['chunks'][p['next']]
         p['next'] += 1
-        Lnow = blob.get_length()
+        Lnow = n if true_first else blob.get_length()
         models[i].write(data, Lnow)
         try:
             writers[i].write(data)
@@ -448,6 +457,9 @@ async def _run(rec, r, content, kinds, decl, blobkind, steps, case):
     ok = True
     for kind_, arg in order:
         step_no += 1
+        if in_flight_second is not None and step_no == 2:
+            blob.set_length(in_flight_second)          # what the client does with every raced peer's header
+            rec.hit('decl.second_announcement_while_a_copy_is_in_flight')
         if late_set not in (None, True) and step_no == 2:
             if blob.get_length() is None and claimed:
                 try:
